@@ -1,4 +1,5 @@
 import re
+from fractions import Fraction
 
 __all__ = ["Timeindex", "to_timestamp"]
 
@@ -53,7 +54,11 @@ class Timeindex:
         unit_matches = {unit: match.group(unit) for unit in units}
         self.__dict__.update({unit: float(value) for unit, value in unit_matches.items() if value})
 
-        self.total_ns = self.sign * sum(int(self.__dict__[unit] * ratios[unit]) for unit in units)
+        # Evaluate the decimal strings exactly: a binary float product can land just below the
+        # intended integer (e.g. 4.1 * 1e9 == 4099999999.999999) and would then be truncated.
+        self.total_ns = self.sign * sum(
+            int(Fraction(value) * ratios[unit]) for unit, value in unit_matches.items() if value
+        )
 
     def __int__(self):
         return self.total_ns
